@@ -1,4 +1,4 @@
-CONSTANTS Descs <- MCTiny
+CONSTANTS Descs <- MCQuick
 INIT Init
 NEXT Next
 VIEW view
